@@ -4,3 +4,4 @@ import TjdLemmas.C07Lemmas
 import TjdLemmas.AutojacLemmas
 import TjdLemmas.MtlLemmas
 import TjdLemmas.C06Lemmas
+import TjdLemmas.C12Lemmas
